@@ -57,6 +57,27 @@ def known_findings(pid):
     return [f for f in kf.get('findings', []) if f.get('property') == pid]
 
 
+# properties whose statement has a clause no contract decides: level 'other', the bounded stand-in always runs
+OTHER_LEVEL = {'C05': 'wiring of the samplers proved for all inputs; the distributional clause rests on the competing-exponentials theorem (assumed) and is looked at by the bounded statistical stand-in only'}
+LEMMA_PROPS = {'C01': ['distrib_inner'], 'C04': ['sum_nonneg_ge_term'], 'C11': ['sum_nonneg_ge_term'],
+               'C10': ['closed_column_sum_zero', 'sum_comm_zero', 'step_keeps_total'],
+               'C12': ['sum_perm'], 'C20': ['gram_psd', 'sum_psd'], 'C07': [], 'C13': []}
+
+
+def lemma_check(pid):
+    """the Lean lemmas a property's contracts rely on: checked by lean (cached by file hash)"""
+    import subprocess
+    names = LEMMA_PROPS.get(pid)
+    if not names:
+        return None
+    src = open(os.path.join(HERE, 'lemmas', 'Pygom.lean')).read()
+    missing = [n for n in names if ('theorem ' + n + ' ') not in src and ('theorem ' + n + '\n') not in src]
+    r = subprocess.run([os.path.join(HERE, 'lemmas', 'check.sh')], capture_output=True, text=True)
+    ok = r.returncode == 0 and r.stdout.startswith('lean-ok') and not missing
+    return {'lemmas': names, 'file': 'lemmas/Pygom.lean', 'checker': 'lean 4 + Mathlib (lemmas/check.sh)', 'ok': ok,
+            'output': (r.stdout + r.stderr).strip()[-400:], 'missing': missing}
+
+
 def scratch_dir():
     d = os.path.join('/var/tmp', 'pyvc-%d' % os.getpid())
     os.makedirs(d, exist_ok=True)
@@ -209,7 +230,7 @@ def check(pid, tier, seed, args):
     # ---- bounded stand-in (thorough always; quick only when the proof is not (re-)established)
     proof_ok = not (unknown or undecided or missing or errors or proof_lost)
     standin = None
-    run_standin = (tier == 'thorough') or (not proof_ok) or (not contracts)
+    run_standin = (tier == 'thorough') or (not proof_ok) or (not contracts) or (pid in OTHER_LEVEL)
     have_standin = False
     if run_standin and not args.no_standin:
         try:
@@ -249,6 +270,10 @@ def check(pid, tier, seed, args):
             violations.append((full, path, False))
     proof_lost_quiet = [] if (native_fail or not have_standin or args.no_standin) else proof_lost
 
+    lem = lemma_check(pid)
+    if lem is not None and not lem['ok']:
+        errors.append(('lemmas', lem['output'] + ' missing=%s' % lem['missing']))
+
     # ---- report
     for full, kf in known_hit:
         print("KNOWN-FINDING: property=%s %s -- %s" % (pid, full, kf.get('what_fails', '')))
@@ -269,6 +294,8 @@ def check(pid, tier, seed, args):
 
     wall = time.time() - t0
     level = 'proof' if (proof_ok and contracts and n_obl > 0 and n_proved == n_obl) else ('other' if (proof_ok and contracts and n_obl > 0) else 'exploration')
+    if level == 'proof' and pid in OTHER_LEVEL:
+        level = 'other'
     assumptions = [
         "python int = mathematical integer; python/numpy float = real arithmetic (no rounding, overflow, NaN, inf)",
         "partial correctness: termination of while loops is not proved",
@@ -290,9 +317,11 @@ def check(pid, tier, seed, args):
         'canaries_refuted': sum(1 for r in results for ok in r['canaries'].values() if ok),
         'canaries_total': sum(len(r['canaries']) for r in results),
         'explanation': "deductive: every obligation generated from the current source of the listed functions was discharged"
-                       if level == 'proof' else
+                       if level == 'proof' else ("every generated obligation was discharged; " + OTHER_LEVEL[pid]) if (level == 'other' and pid in OTHER_LEVEL) else
                        "proof not (re-)established for every obligation; bounded stand-in results are reported under 'standin'",
     }
+    if lem is not None:
+        cov['lemmas'] = lem
     if standin:
         cov['standin'] = {k: standin[k] for k in standin if k != 'failures'}
         cov['standin']['label'] = 'bounded, never counted as proved'
